@@ -446,11 +446,41 @@ impl<P: Prop> Part<P> {
                     replay: path,
                 });
                 env.stop.store(true, Ordering::Relaxed);
+                // Other shards may be stuck inside the library (a defect that breaks this case can
+                // make another one loop forever): after a grace period the violation found here is
+                // reported anyway instead of ending in the watchdog as "inconclusive".
+                arm_violation_deadline(&env.property, &best_fail.sig, &rep.violations.last().unwrap().msg, &rep.violations.last().unwrap().replay);
                 break;
             }
         }
         rep
     }
+}
+
+static PENDING_VIOLATION: Mutex<Option<(Instant, String)>> = Mutex::new(None);
+
+fn arm_violation_deadline(property: &str, sig: &str, msg: &str, replay: &Path) {
+    let text = format!("  failure [{}]: {}\nVIOLATION property={} replay={}", sig, msg, property, replay.display());
+    let mut g = PENDING_VIOLATION.lock().unwrap();
+    if g.is_none() {
+        *g = Some((Instant::now(), text));
+        std::thread::spawn(|| loop {
+            std::thread::sleep(std::time::Duration::from_secs(1));
+            let due = PENDING_VIOLATION.lock().unwrap().as_ref().map(|(t, _)| t.elapsed().as_secs() >= 45).unwrap_or(false);
+            if due {
+                if let Some((_, text)) = PENDING_VIOLATION.lock().unwrap().take() {
+                    println!("note: other shards did not stop within 45 s of the first violation (stuck inside a case); reporting what was found");
+                    println!("{}", text);
+                }
+                std::process::exit(1);
+            }
+        });
+    }
+}
+
+/// the normal reporting path got there first
+pub fn disarm_violation_deadline() {
+    *PENDING_VIOLATION.lock().unwrap() = None;
 }
 
 impl<P: Prop> DynPart for Part<P> {
@@ -910,6 +940,7 @@ pub fn run_property(prop: &Property, env: &RunEnv) -> RunOutcome {
         serde_json::to_vec_pretty(&evidence).unwrap(),
     );
 
+    disarm_violation_deadline();
     println!(
         "{} {}: {} evaluations, {} distinct non-trivial, {} violations, {:.1}s",
         env.property,
